@@ -2003,4 +2003,32 @@ theorem mon_step {n : Nat} {s : DsStep.S} {ms : Spec.DSMon.S} (h : Rel n s ms) (
   case smFree => exact sm_family_accept h hn _ hok trivial
   all_goals exact ea_family_accept h _ hok trivial
 
+/-! ## whole cases -/
+
+/-- the monitor over a whole case: one verdict per (operation, answer) pair, as `pmodel dsmon` prints them -/
+def monRun (ms : Spec.DSMon.S) : List (Op × Ans) → List Verdict
+  | [] => []
+  | (op, a) :: rest => (monStep ms op a).2 :: monRun (monStep ms op a).1 rest
+
+/-- the monitor's state after a whole case -/
+def monFinal (ms : Spec.DSMon.S) : List (Op × Ans) → Spec.DSMon.S
+  | [] => ms
+  | (op, a) :: rest => monFinal (monStep ms op a).1 rest
+
+theorem mon_run (ops : List Op) : ∀ (n : Nat) (s : DsStep.S) (ms : Spec.DSMon.S), Rel n s ms →
+    (∀ op ∈ ops, OpOk op) → ((n + ops.length : Nat) : Int) ≤ SeqMap.INT64_MAX →
+    monRun ms (ops.zip ((runOps s ops).2.map Out.ans)) = List.replicate ops.length none ∧
+    Rel (n + ops.length) (runOps s ops).1 (monFinal ms (ops.zip ((runOps s ops).2.map Out.ans))) := by
+  induction ops with
+  | nil => intro n s ms h _ _; exact ⟨rfl, h⟩
+  | cons op ops ih =>
+    intro n s ms h hok hn
+    simp only [List.length_cons] at hn
+    obtain ⟨hv, hr⟩ := mon_step h op (hok op List.mem_cons_self) (by omega)
+    have ih' := ih (n + 1) (stepOp s op).1 _ hr (fun o ho => hok o (List.mem_cons_of_mem _ ho)) (by omega)
+    simp only [runOps, List.map_cons, List.zip_cons_cons, monRun, monFinal, List.length_cons, List.replicate_succ, hv]
+    refine ⟨by rw [ih'.1], ?_⟩
+    have : n + (ops.length + 1) = n + 1 + ops.length := by omega
+    rw [this]; exact ih'.2
+
 end Percival.Proofs.DsStep
